@@ -307,7 +307,10 @@ def decodeIlen (x : BitVec 64) : Bool × BitVec 64 := if x.msb then (true, ~~~x)
 
 /-- the body of `soxr_process` once `ilen` and the flushing flag are settled. -/
 def processCore (fuel : Nat) (o1 : Obj) (inNull outNull : Bool) (ilen olen : Nat) : M (Obj × Nat × Nat) :=
-  if outNull && inNull then M.pure (o1, ilen, 0)
+  if outNull && inNull then
+    -- `if (p->flushing && !p->error && p->resamplers) for (u …) resampler_flush(p->resamplers[u]);` (/repo ab95331)
+    M.bind (if o1.flushing && o1.error.isNone && o1.inited then repeatM o1.chans (emit .flush) else M.pure ()) fun _ =>
+    M.pure (o1, ilen, 0)
   else
     M.bind (if ilen != 0 then soxrInput o1 inNull ilen else M.pure (o1, 0)) fun oi =>
     M.bind (soxrOutput fuel oi.1 outNull olen) fun oo =>
